@@ -149,6 +149,18 @@ func (e *Engine) key(v ssa.Value) any {
 			e.keyName[k] = kit.Path(x.Call.Args[0]) + "." + kit.StaticCallee(x).Name() + "()"
 			return k
 		}
+		if n := kit.CalleeName(x); PureLibraryFuncs[n] {
+			k := "pure:" + n
+			for _, a := range x.Call.Args {
+				if cv, ok := a.(*ssa.Convert); ok {
+					a = cv.X
+				}
+				k += "|" + e.keyStr(a)
+			}
+			e.keyType[k] = x.Type()
+			e.keyName[k] = kit.ShortName(n) + "(" + kit.Path(x.Call.Args[0]) + ")"
+			return k
+		}
 		if x.Call.IsInvoke() && PureRegionGetters[x.Call.Method.Name()] &&
 			x.Call.Method.FullName() == "("+kit.Module+"/hrpc.RegionInfo)."+x.Call.Method.Name() {
 			k := fmt.Sprintf("rget:%s@%v", x.Call.Method.Name(), e.keyStr(x.Call.Value))
@@ -195,6 +207,13 @@ func (e *Engine) storesThroughIndex(fn *ssa.Function, t types.Type) bool {
 		})
 	}
 	return found
+}
+
+// PureLibraryFuncs are side-effect-free library functions whose results for
+// the same arguments denote the same quantity.
+var PureLibraryFuncs = map[string]bool{
+	"google.golang.org/protobuf/proto.Size":                    true,
+	"google.golang.org/protobuf/encoding/protowire.SizeVarint": true,
 }
 
 // PureRegionGetters lists the hrpc.RegionInfo methods that return immutable
@@ -268,6 +287,18 @@ func (e *Engine) keyStr(v ssa.Value) string {
 // ErrNilAt reports whether the error result of call is known to be nil at (b, idx).
 func (e *Engine) ErrNilAt(call *ssa.Call, b *ssa.BasicBlock, idx int) bool {
 	return errNilEdgeDominates(call, b, idx)
+}
+
+// PureKey returns the canonical symbol key of the pure library call name(arg).
+func (e *Engine) PureKey(name string, arg ssa.Value) any {
+	if cv, ok := arg.(*ssa.Convert); ok {
+		arg = cv.X
+	}
+	k := "pure:" + name + "|" + e.keyStr(arg)
+	if _, ok := e.keyName[k]; !ok {
+		e.keyName[k] = kit.ShortName(name) + "(" + kit.Path(arg) + ")"
+	}
+	return k
 }
 
 // KeyOf exposes the canonical identity of a value (pure getters on the same
